@@ -91,6 +91,9 @@ def finish(meta, src, name):
         t = json.load(open(tj))
         meta["tests"], meta["tests_pass"] = t["tests"], t["tests_pass"]
         meta["ran"] += t.get("ran", [])
+    for k, v in (old.get("checks") or {}).items():  # verdicts of checks that were not re-run stay, marked as earlier
+        if k not in (meta.get("checks") or {}):
+            meta.setdefault("checks", {})[k] = dict(v, earlier=True)
     if "tests" not in meta and "tests" in old:  # a re-evaluation of the checks keeps the recorded test-suite result
         meta["tests"], meta["tests_pass"] = old["tests"], old.get("tests_pass")
         meta["ran"] += [r for r in old.get("ran", []) if "pytest" in r]
